@@ -7,5 +7,6 @@ cp extract.v build/ && (cd build && coqc -Q ../../../coq Glb extract.v >/dev/nul
 PRE="../common/prelude.ml"
 if [ -f use_nat ]; then PRE="$PRE ../common/prelude_nat.ml"; fi
 ( echo "open Model"; cat $PRE driver.ml ) > build/main.ml
-cd build && ocamlfind ocamlopt -O3 -w -a -package str model.mli model.ml main.ml -o ../drv 2>&1 | grep -v "^$" | grep -v "options -O3 is only relevant" || true
+cd build && ocamlfind ocamlopt -O3 -w -a -package str model.mli model.ml main.ml -o ../drv.tmp.$$ 2>&1 | grep -v "^$" | grep -v "options -O3 is only relevant" || true
+test -x ../drv.tmp.$$ && mv -f ../drv.tmp.$$ ../drv
 test -x ../drv
